@@ -22,8 +22,9 @@ def S(i):
 X = {"n": "X"}
 
 
-def C(site, arg, kw=NULL, star=False, dstar=False):
-    return {"n": "C", "site": site, "arg": arg, "kw": kw, "star": star, "dstar": dstar}
+def C(site, arg, kw=NULL, star=False, dstar=False, poskw=False):
+    # poskw: the positional parameter is given by keyword (x=<arg>)
+    return {"n": "C", "site": site, "arg": arg, "kw": kw, "star": star, "dstar": dstar, "poskw": poskw}
 
 
 def sites(arg_leaves, kw_leaves, which=("R", "N", "S")):
@@ -32,9 +33,11 @@ def sites(arg_leaves, kw_leaves, which=("R", "N", "S")):
         for a in arg_leaves:
             out.append(C(s, a))
             out.append(C(s, a, star=True))
+            out.append(C(s, a, poskw=True))
             for k in kw_leaves:
                 out.append(C(s, a, kw=k))
                 out.append(C(s, a, kw=k, dstar=True))
+                out.append(C(s, a, kw=k, poskw=True))
     return out
 
 
@@ -150,7 +153,7 @@ class Renderer:
             site = "N" if self.only_next else t["site"]
             callee = {"R": "recurse", "N": "call_next", "S": self.fname}[site]
             a = self.r(t["arg"])
-            parts = [f"*[{a}]" if t["star"] else a]
+            parts = [f"*[{a}]" if t["star"] else (f"x={a}" if t.get("poskw") else a)]
             if t["kw"]["n"] != "null":
                 k = self.r(t["kw"])
                 parts.append(f"**{{'k': {k}}}" if t["dstar"] else f"k={k}")
